@@ -49,6 +49,8 @@ INT_TYPES = {
     "i16": (True, 16),
 }
 
+KNOWN_CONSTS = {"const pyo3::ffi::PyBUF_WRITABLE": (1, "i32")}
+
 SIZE_OF = {"u8": 1, "f32": 4, "u32": 4, "lightmotif::abc::Nucleotide": 1, "Nucleotide": 1, "f64": 8}
 
 
@@ -196,6 +198,10 @@ class Executor:
         m = re.match(r"const (true|false)$", text)
         if m:
             return Val("bool", term=m.group(1))
+        if text in KNOWN_CONSTS:
+            v, ty = KNOWN_CONSTS[text]
+            it = INT_TYPES[ty]
+            return Val("bv", term=bv(v, it[1]), signed=it[0], width=it[1])
         if text.startswith("const "):
             return opaque(text)
         raise Unsupported("operand: " + text)
@@ -264,6 +270,9 @@ class Executor:
                 ext = "sign_extend" if a.signed else "zero_extend"
                 t = f"((_ {ext} {it[1]-a.width}) {a.term})"
             return Val("bv", term=t, signed=it[0], width=it[1])
+        m = re.match(r"(.*) as .* \((PtrToPtr|PointerCoercion\(.*\)|Transmute|PointerExposeProvenance|PointerWithExposedProvenance)\)$", text)
+        if m:
+            return self.operand(p, m.group(1))
         m = re.match(r"Not\((.*)\)$", text)
         if m:
             a = self.operand(p, m.group(1))
@@ -272,6 +281,8 @@ class Executor:
             raise Unsupported("Not of non-bool")
         if text.startswith("&"):
             return opaque("ref:" + text)
+        if text.startswith("discriminant("):
+            return opaque("discriminant")
         m = re.match(r"\[(.*)\]$", text)
         if m:
             items = [self.operand(p, x) for x in split_args(m.group(1))]
@@ -286,6 +297,8 @@ class Executor:
                 k, v = part.split(": ", 1)
                 fields[k.strip()] = self.operand(p, v)
             return Val("agg", name=m.group(1), fields=fields)
+        if text.startswith("no_retag "):
+            text = text[len("no_retag "):]
         if re.match(r"(copy|move|const) ", text):
             return self.operand(p, text)
         m = re.match(r"(Option|std::option::Option)::<.*>::(None|Some)", text)
@@ -306,6 +319,10 @@ class Executor:
         for rx, ev in self.errors.items():
             if re.search(rx, callee):
                 return opaque("err:" + ev)
+        if re.search(r"::as_mut_ptr$|::as_ptr$", callee) and args:
+            v = self.operand(p, args[0])
+            if v.kind == "opaque":
+                return opaque("ptr:" + v.tag)
         m = re.search(r"size_of::<(.*)>$", callee)
         if m:
             ty = m.group(1)
@@ -390,6 +407,13 @@ class Executor:
                             q.conds.append(f"(not {c})")
                         self._dfs(q, other, depth + 1, max_paths)
                     return
+                if v.kind == "opaque":
+                    # result of an opaque call (e.g. `is_null`): both outcomes are possible
+                    for k, t in targets:
+                        self._dfs(p.clone(), t, depth + 1, max_paths)
+                    if other:
+                        self._dfs(p.clone(), other, depth + 1, max_paths)
+                    return
                 raise Unsupported("switchInt on " + repr(v))
             m = re.match(r"assert\((!?)(.*?), \".*\) -> \[success: (bb\d+)", s)
             if m:
@@ -411,6 +435,11 @@ class Executor:
             m = re.match(r"(_\d+) = (.*);$", s)
             if m:
                 p.env[m.group(1)] = self.rvalue(p, m.group(1), m.group(2))
+                continue
+            m = re.match(r"\(\(\*(_\d+)\)\.(\d+): .*?\) = (.*);$", s)
+            if m:
+                val = self.rvalue(p, None, m.group(3))
+                p.events.append(("store", [m.group(1), int(m.group(2)), val]))
                 continue
             m = re.match(r"\((_\d+)\.(\d+): [^)]*\) = (.*);$", s)
             if m:
